@@ -37,6 +37,6 @@ for name,n in [("origin",6),("aspath",12),("nexthop",8),("med",8),("localpref",8
     add("C05.upd_attr_"+name,"VH_c05_upd_attr_"+name,BGP,c05,{"params":{"n":n},"unwind":n+12},{"params":{"n":t},"unwind":t+12},expect_reach=["end"],merge=UM)
 
 exec(open('/verif/tools/genindex_more.py').read()) if __import__('os').path.exists('/verif/tools/genindex_more.py') else None
-ix={"defaults":{"quick":{"unwind":80,"paths":50000,"query_ms":20000,"harness_s":150},"thorough":{"unwind":200,"paths":500000,"query_ms":60000,"harness_s":1200}},"harnesses":H}
+ix={"defaults":{"quick":{"unwind":80,"paths":50000,"query_ms":20000,"harness_s":600},"thorough":{"unwind":200,"paths":500000,"query_ms":60000,"harness_s":1200}},"harnesses":H}
 json.dump(ix,open('/verif/harness/index.json','w'),indent=1)
 print(len(H),"harnesses")
